@@ -2,7 +2,7 @@
 
 from hypothesis import strategies as st
 
-from lunaverif.core import Sub, Result, fail
+from lunaverif.core import Sub, Result, fail, HarnessError
 from lunaverif.gen import long_lists, weighted, bits
 from lunaverif.simkit import CycleHarness
 from lunaverif.ref import g5_hp as hp
@@ -15,6 +15,15 @@ ASSUMPTIONS = [
     "lines carry arbitrary (stale) data",
     "the report is registered: it is expected 1 cycle after the header is taken (a uniform 2-cycle latency is "
     "also accepted)",
+    "layer sub: USB3ProtocolLayer sits on a stub link that behaves like USB3LinkLayer at the ports the layer uses: "
+    "header_source is HeaderPacketReceiver.queue (valid = buffers_filled > 0, combinational; the buffers are emptied "
+    "by a *registered* assignment while usb_reset = link.in_reset is high), so a header can be offered -- and "
+    "transferred -- in the first cycle of an in_reset pulse (in_reset = request_hot_reset | in_usb_reset comes from "
+    "the LTSSM / LFPS detector and is unrelated to the header path), but never in a later cycle of the same pulse; a "
+    "header still waiting in that first cycle is flushed; after the pulse at least two empty cycles follow (on the real "
+    "link: a whole retraining). An ITP that is transferred (valid & ready) is 'an isochronous timestamp packet' of "
+    "the statement whatever in_reset is in that cycle: the statement has no reset exemption, the link layer has "
+    "handed the packet over and nothing will deliver it again",
 ]
 
 OTHER_TYPES = [hp.TYPE_LMP, hp.TYPE_TP, hp.TYPE_DPH, 0b01101, 0b01110, 0b00001, 0b11100, 0b01111, 0b11111]
@@ -199,4 +208,270 @@ class ItpSub(Sub):
         return Result(ok=True, nontrivial=hi_c and hi_d, labels=tuple(sorted(labels)))
 
 
-SUBS = [ItpSub()]
+# ------------------------------------------------------------------------------------------------
+# The receiver as wired in USB3ProtocolLayer (protocol/layer.py), on a stub link
+# ------------------------------------------------------------------------------------------------
+
+class _StubLink:
+    """The ports of USB3LinkLayer that USB3ProtocolLayer.elaborate() touches (declared as link/layer.py declares them)."""
+
+    def __init__(self):
+        from amaranth import Signal
+        from luna.gateware.usb.usb3.link.header import HeaderQueue
+        from luna.gateware.usb.usb3.link.data import DataHeaderPacket
+        from luna.gateware.usb.stream import SuperSpeedStreamInterface
+        self.header_sink = HeaderQueue()
+        self.header_source = HeaderQueue()
+        self.data_source = SuperSpeedStreamInterface()
+        self.data_header_from_host = DataHeaderPacket()
+        self.data_source_complete = Signal()
+        self.data_source_invalid = Signal()
+        self.data_sink = SuperSpeedStreamInterface()
+        self.data_sink_send_zlp = Signal()
+        self.data_sink_sequence_number = Signal(5)
+        self.data_sink_endpoint_number = Signal(4)
+        self.data_sink_length = Signal(range(1024 + 1))
+        self.data_sink_direction = Signal()
+        self.ready = Signal()
+        self.in_reset = Signal()
+
+
+def _layer_dut():
+    """USB3ProtocolLayer with the strobe / delta of the timestamp receiver it instantiates brought out."""
+    from amaranth import Elaboratable, Module, Signal
+    from luna.gateware.usb.usb3.protocol.layer import USB3ProtocolLayer
+
+    class Wrapped(Elaboratable):
+        def __init__(self):
+            self.link = _StubLink()
+            self.layer = USB3ProtocolLayer(link_layer=self.link)
+            self.upd = Signal()
+            self.ctr = Signal(16)
+            self.delta = Signal(16)
+
+        def elaborate(self, platform):
+            m = Module()
+            inner = self.layer.elaborate(platform)
+            itp = inner.submodules.itp_handler          # the instance layer.py attached to the header demultiplexer
+            m.submodules.layer = inner
+            m.d.comb += [self.upd.eq(itp.update_received), self.ctr.eq(itp.bus_interval_counter),
+                         self.delta.eq(itp.delta)]
+            self.widths = (len(itp.bus_interval_counter), len(itp.delta))
+            return m
+
+    return Wrapped()
+
+
+# in_reset relative to the header: none / pulse that ends 2..3 cycles before the offer / rising in the offer cycle /
+# rising in the cycle after the transfer (= the report cycle) / rising two cycles after
+RST_NONE, RST_BEFORE, RST_WITH, RST_AFTER1, RST_AFTER2 = range(5)
+
+
+def _layer_item():
+    rst = weighted([(RST_NONE, 5), (RST_BEFORE, 1), (RST_WITH, 3), (RST_AFTER1, 1), (RST_AFTER2, 1)])
+    rl = weighted([(1, 3), (2, 2), (3, 1), (6, 1), (12, 1)])
+    itp = st.fixed_dictionaries(dict(
+        k=st.just("itp"),
+        p=st.one_of(bits(27), st.sampled_from(_EDGE), st.integers(0, 26).map(lambda b: 1 << b)),
+        w1=st.one_of(st.just(0), bits(32)), w2=st.one_of(st.just(0), bits(32)),
+        w3=st.one_of(st.just(0), bits(32)), rst=rst, rl=rl, gap=st.integers(2, 3)))
+    other = st.fixed_dictionaries(dict(
+        k=st.just("other"), t=st.sampled_from([hp.TYPE_LMP, hp.TYPE_TP, hp.TYPE_DPH]), p=bits(27), w1=bits(32),
+        w2=bits(32), w3=bits(32), rst=rst, rl=rl, gap=st.integers(2, 3)))
+    idle = st.fixed_dictionaries(dict(
+        k=st.just("idle"), t=weighted([(hp.TYPE_ITP, 3), (hp.TYPE_TP, 1), (0, 1)]), p=bits(27), n=st.integers(1, 3),
+        rst=weighted([(RST_NONE, 3), (RST_WITH, 1)]), rl=rl, gap=st.integers(2, 3)))
+    return st.one_of(itp, itp, itp, other, idle)
+
+
+class _LinkDriver:
+    """The link layer's side of header_source + in_reset (see ASSUMPTIONS)."""
+
+    HOLD = 6
+
+    def __init__(self, items, link_ready):
+        self.items = items
+        self.link_ready = link_ready
+        self.i = 0
+        self.q = []            # cycles already decided: dict(valid, dw0.., rst) -- consumed before the next item
+        self.phase = None
+        self.log = []          # per cycle (valid, dw0, in_reset, item index)
+        self.tail = 4
+
+    def _emit(self, idx, valid=0, rst=0, dw0=None, it=None):
+        upd = dict(valid=valid, rst=rst)
+        if dw0 is not None:
+            upd.update(dw0=dw0)
+            if valid:
+                upd.update(dw1=it["w1"], dw2=it["w2"], dw3=it["w3"])
+        self.log.append((valid, dw0 if dw0 is not None else (self.log[-1][1] if self.log else 0), rst, idx))
+        return upd
+
+    def step(self, t, prev):
+        if t == 0:
+            first = dict(lready=self.link_ready)
+        else:
+            first = {}
+        upd = self._step(t, prev)
+        if upd is None:
+            return None
+        upd.update(first)
+        return upd
+
+    def _step(self, t, prev):
+        while True:
+            if self.q:
+                kind, idx = self.q.pop(0)
+                return self._emit(idx, valid=0, rst=1 if kind == "rst" else 0)
+            if self.i >= len(self.items):
+                self.tail -= 1
+                return None if self.tail < 0 else self._emit(None)
+            it = self.items[self.i]
+            idx = self.i
+            if self.phase is None:
+                self.phase = "offer"
+                self.left = self.HOLD if it["k"] != "idle" else it["n"]
+                self.first = True
+                if it["rst"] == RST_BEFORE:
+                    self.q = [("rst", idx)] * it["rl"] + [("gap", idx)] * it["gap"]
+                    continue
+            # offer phase
+            if not self.first:
+                pv, _, prst, _ = self.log[-1]
+                taken = bool(pv and prev.ready)
+                flushed = bool(prst)                 # offered in the first cycle of a reset: the queue is empty now
+                self.left -= 1
+                if taken or flushed or self.left <= 0:
+                    after = []
+                    if it["rst"] == RST_WITH:
+                        after = [("rst", idx)] * (it["rl"] - 1) + [("gap", idx)] * it["gap"]
+                    elif it["rst"] == RST_AFTER1:
+                        after = [("rst", idx)] * it["rl"] + [("gap", idx)] * it["gap"]
+                    elif it["rst"] == RST_AFTER2:
+                        after = [("gap", idx)] + [("rst", idx)] * it["rl"] + [("gap", idx)] * it["gap"]
+                    self.q = after
+                    self.i += 1
+                    self.phase = None
+                    continue
+            rst = 1 if (it["rst"] == RST_WITH and self.first) else 0
+            self.first = False
+            if it["k"] == "idle":
+                return self._emit(idx, valid=0, rst=rst, dw0=it["t"] | (it["p"] << 5))
+            ty = hp.TYPE_ITP if it["k"] == "itp" else it["t"]
+            return self._emit(idx, valid=1, rst=rst, dw0=ty | (it["p"] << 5), it=it)
+
+
+class LayerItpSub(Sub):
+    name = "layer"
+    budget = {"quick": 4000, "thorough": 60000}
+    rule = ("USB3ProtocolLayer on a stub link: header-queue histories on link.header_source (ITP headers over all 27 "
+            "payload bits, LMP/TP/DPH headers for the layer's other consumers, empty cycles with stale data) with "
+            "link.in_reset pulses of 1..12 cycles placed before the offer, rising in the offer cycle (the header is "
+            "then withdrawn after that cycle, as the real queue is flushed), in the report cycle or after it; link.ready "
+            "0/1 per case; every ITP transferred (valid & ready on header_source) must be followed by the timestamp "
+            "receiver's update_received with bus_interval_counter == DW0[18:5] == layer.bus_interval and delta == "
+            "DW0[31:19]; ITPs offered outside a reset must be taken; no strobe without a transfer; non-trivial = an "
+            "ITP with non-zero counter and delta transferred in a cycle in which in_reset is high, and another "
+            "outside a reset")
+
+    def setup(self):
+        dut = _layer_dut()
+        hs = dut.link.header_source
+        self.h = CycleHarness(
+            dut, ins=dict(valid=hs.valid, dw0=hs.header.dw0, dw1=hs.header.dw1, dw2=hs.header.dw2,
+                          dw3=ItpSub._dw3(hs.header), rst=dut.link.in_reset, lready=dut.link.ready),
+            outs=dict(ready=hs.ready, upd=dut.upd, ctr=dut.ctr, delta=dut.delta, busint=dut.layer.bus_interval),
+            domain="ss")
+        self.dut = dut
+
+    def strategy(self):
+        return st.fixed_dictionaries(dict(items=long_lists(_layer_item(), min_size=1, max_size=24, average=8),
+                                          link_ready=weighted([(1, 3), (0, 1)])))
+
+    def enumerate(self, tier):
+        cases = []
+        for rst in range(5):
+            for rl in (1, 2, 6):
+                cases.append(dict(link_ready=1, items=[
+                    dict(k="itp", p=0x5555555, w1=0, w2=0, w3=0, rst=RST_NONE, rl=1, gap=2),
+                    dict(k="itp", p=0x2AAAAAA, w1=0, w2=0, w3=0, rst=rst, rl=rl, gap=2),
+                    dict(k="itp", p=0x7FFFFFF, w1=0, w2=0, w3=0, rst=RST_NONE, rl=1, gap=2)]))
+        return cases
+
+    def run(self, case):
+        drv = _LinkDriver(case["items"], case["link_ready"])
+        trace = self.h.run_driver(drv, 24 * 40 + 16)
+        log = drv.log[:len(trace)]
+        wc, wd = self.dut.widths
+        labels = set()
+        taken = []              # (cycle, counter, delta, in_reset)
+        offered_clear = {}      # item index -> was it taken (ITPs offered with in_reset low only)
+        for t, ((v, dw0, rst, idx), o) in enumerate(zip(log, trace)):
+            is_itp = v and hp.header_type(dw0) == hp.TYPE_ITP
+            if t and rst and log[t - 1][2] and v:
+                raise HarnessError("driver offered a header inside a reset pulse")
+            if is_itp:
+                if not rst:
+                    offered_clear[idx] = offered_clear.get(idx, False) or bool(o.ready)
+                if o.ready:
+                    f = hp.parse_itp(dw0)
+                    taken.append((t, f["counter"], f["delta"], rst))
+            elif v:
+                labels.add("other-type-header")
+        lost = [i for i, ok in offered_clear.items() if not ok]
+        if lost:
+            return fail(f"ITP header (item {lost[0]}) offered for {drv.HOLD} cycles with in_reset low was never taken",
+                        signature="itp-not-accepted")
+
+        strobes = [t for t, o in enumerate(trace) if o.upd]
+        verdict = None
+        for lat in (1, 2):
+            exp = {t + lat: (c, d, r) for t, c, d, r in taken}
+            v = None
+            if sorted(exp) != strobes:
+                missing = sorted(set(exp) - set(strobes))
+                extra = sorted(set(strobes) - set(exp))
+                if missing:
+                    r = exp[missing[0]][2]
+                    v = (f"ITP transferred in cycle {missing[0] - lat} (link.in_reset={r}) but update_received is low "
+                         f"in cycle {missing[0]}",
+                         "missing-update-strobe-itp-during-reset" if r else "missing-update-strobe")
+                else:
+                    v = (f"update_received high in cycle {extra[0]} without an ITP header {lat} cycle(s) earlier",
+                         "strobe-without-itp")
+            else:
+                for t in strobes:
+                    c, d, r = exp[t]
+                    o = trace[t]
+                    if o.ctr != c or o.delta != d or o.busint != c:
+                        which = [n for n, a, b in (("counter", o.ctr, c), ("delta", o.delta, d),
+                                                   ("bus_interval", o.busint, c)) if a != b]
+                        sig = "wrong-" + "+".join(which)
+                        if (wc < 14 or wd < 13) and o.ctr == c & ((1 << wc) - 1) and o.delta == d & ((1 << wd) - 1) \
+                                and o.busint == o.ctr:
+                            sig = "outputs-truncated"
+                        v = (f"cycle {t}: ITP counter={c:#06x} delta={d:#06x} (transferred with link.in_reset={r}) but "
+                             f"reported bus_interval_counter={o.ctr:#x} ({wc} bit) delta={o.delta:#x} ({wd} bit) "
+                             f"layer.bus_interval={o.busint:#x}", sig)
+                        break
+            if v is None:
+                verdict = None
+                break
+            if verdict is None:
+                verdict = v
+        if verdict is not None:
+            return fail(verdict[0], signature=verdict[1])
+
+        in_rst = [x for x in taken if x[3] and x[1] and x[2]]
+        clear = [x for x in taken if not x[3] and x[1] and x[2]]
+        if any(x[3] for x in taken):
+            labels.add("itp-transferred-in-first-reset-cycle")
+        if any(it["rst"] == RST_AFTER1 and it["k"] == "itp" for it in case["items"]):
+            labels.add("reset-rises-in-report-cycle")
+        if any(it["rst"] == RST_BEFORE for it in case["items"]):
+            labels.add("reset-before-offer")
+        labels.add(f"link-ready={case['link_ready']}")
+        return Result(ok=True, nontrivial=bool(in_rst and clear), labels=tuple(sorted(labels)))
+
+
+SUBS = [ItpSub(), LayerItpSub()]
